@@ -286,6 +286,11 @@ def run(R):
         oky = len(ys) == 1 and isinstance(ys[0].value, ast.ListComp) and not q.in_loop(ys[0])
         R.check(oky, "C14.ONE-YIELD", mq, R.site(m), "all handlers are invoked in one yield", "handlers are not invoked in a single yield")
 
+    # ---- exception precedence: the list of per-element results is unwrapped first to last, so the first failing element's error is raised
+    from .structs import unwrap_rules
+    unwrap_rules(R, "C14", order_only=True)
+    from .c04 import no_sync_in_library_tasks
+    no_sync_in_library_tasks(R, "C14.YIELD-ONLY")
     # ---- SCHED (shared with C04): 'issued together' means 'one flush' only if the scheduler batches maximally
     ro = Roles(R)
     from .c04 import wait_for_rules, revisit_rules
